@@ -286,6 +286,17 @@ func genC06(r *Rng, idx int, tier string) *World {
 			w.Setup = append(w.Setup, Op{K: "handle", Pattern: p, HID: hid, Methods: []string{"GET"}})
 		}
 	}
+	// in some worlds two writers race to register patterns that differ only in parameter names:
+	// sequentially the second registration is always refused, so both being accepted (and both
+	// showing up in Routes()) is a response no sequential router could produce
+	var twins []string
+	if r.Pct(15) {
+		for _, p := range tg {
+			if t := renamePattern(r, p, w.Opts.Interceptors); t != "" {
+				twins = append(twins, t)
+			}
+		}
+	}
 	nW, nR := r.Range(1, 3), r.Range(1, 4)
 	budget := 16
 	if tier == "thorough" && r.Pct(50) {
@@ -297,6 +308,9 @@ func genC06(r *Rng, idx int, tier string) *World {
 		for i := 0; i < n && budget > 0; i++ {
 			budget--
 			p := pick(r, tg)
+			if len(twins) > 0 && r.Pct(40) {
+				p = pick(r, twins)
+			}
 			op := Op{T: t, Pattern: p}
 			switch k := r.Intn(10); {
 			case k < 5:
